@@ -247,6 +247,14 @@ def run_constructions(ctx, n):
             kwargs['else_message'] = 'else text'
         if rng.random() < 0.1:
             kwargs['location'] = rng.choice([3, 10])
+        if rng.random() < 0.2:
+            # the documented kinds of parent: a number, a name, a feedback object
+            how = rng.choice(['int', 'str', 'feedback'])
+            if how == 'feedback':
+                kwargs['parent'] = Feedback(label='verif_group_%d' % i)       # created (and recorded) before the counts below are taken
+            else:
+                kwargs['parent'] = 2 if how == 'int' else 'named-section'
+            shape.append('parent-' + how)
         # ---- which class ------------------------------------------------------------------------------------
         use_core = kind < 0.25
         if use_core:
@@ -378,7 +386,16 @@ def override_targets():
 
     class verif_sibling(verif_parent):
         message_template = 'sibling'
-    targets += [('verif_parent', verif_parent), ('verif_child', verif_child), ('verif_grandchild', verif_grandchild), ('verif_sibling', verif_sibling)]
+
+    class verif_shadows_with_none(verif_parent):
+        # its OWN value of these fields is None, while the parent's is not
+        title = None
+        muted = None
+        message_template = None
+        justification = None
+        score = None
+    targets += [('verif_parent', verif_parent), ('verif_child', verif_child), ('verif_grandchild', verif_grandchild), ('verif_sibling', verif_sibling),
+                ('verif_shadows_with_none', verif_shadows_with_none), ('Feedback', Feedback)]
     return targets
 
 
